@@ -6,6 +6,8 @@ use std::panic;
 
 mod cmds;
 mod forms;
+#[cfg(feature = "ark")]
+mod bls;
 
 fn main() {
     panic::set_hook(Box::new(|_| {}));
